@@ -448,6 +448,8 @@ class Evaluator:
             base = node.value
             # class references: datetime.date / datetime.datetime / self.EmptyCell / self.__class__
             txt = ast.unparse(node)
+            if txt in getattr(self, 'text_attrs', {}):
+                return self.text_attrs[txt]
             if txt in ('datetime.date', 'datetime.datetime', 'self.EmptyCell', 'self.__class__', 'date_parser.ParserError'):
                 return AV('other', val=('class', {'datetime.date': 'date', 'datetime.datetime': 'datetime',
                                                   'self.EmptyCell': 'EmptyCell', 'self.__class__': 'EmptyCell'}.get(txt, txt)))
@@ -504,6 +506,12 @@ class Evaluator:
             return AV('str', text='other')
         if isinstance(node, ast.Subscript):
             base = self.ev(node.value, env)
+            if base.kind == 'dict' and base.items is not None and not isinstance(node.slice, ast.Slice):
+                k = self.ev(node.slice, env)
+                for kv in base.items:
+                    if self.eq(kv.items[0], k):
+                        return kv.items[1]
+                raise AbsRaise('KeyError', 'dict lookup')
             if isinstance(node.slice, ast.Slice) and base.items is not None:
                 def bound(x):
                     if x is None:
@@ -550,6 +558,9 @@ class Evaluator:
         if name is not None and name in env and env[name].kind == 'other' and isinstance(env[name].val, tuple) and \
                 env[name].val[0] == 'name' and env[name].val[1] in ('int', 'float', 'str', 'bool'):
             name = env[name].val[1]                       # a builtin passed around as a value
+        if name is not None and name in env and env[name].kind == 'func' and isinstance(env[name].val, tuple) and \
+                env[name].val[0] == 'native':
+            return env[name].val[1]([self.ev(a, env) for a in node.args])
         if name is not None and name in env and env[name].kind == 'func':
             hook = self.hooks.get('<call:' + name + '>') or self.hooks.get('<call>')
             if hook is None and isinstance(env[name].val, tuple) and env[name].val[0] == 'lambda':
@@ -630,6 +641,13 @@ class Evaluator:
                 origin = next((a.origin for a in args if a.origin), '')
                 return AV('datetime', val='midnight' if len(node.args) == 3 or txt.endswith('combine') else None, origin=origin)
             recv = self.ev(f.value, env)
+            if recv.kind == 'dict' and recv.items is not None and f.attr == 'get' and 1 <= len(node.args) <= 2:
+                k = self.ev(node.args[0], env)
+                default = self.ev(node.args[1], env) if len(node.args) == 2 else AV('none')     # arguments are evaluated first
+                for kv in recv.items:
+                    if self.eq(kv.items[0], k):
+                        return kv.items[1]
+                return default
             if recv.kind == 'str' and f.attr in ('lower', 'upper', 'strip', 'casefold'):
                 return recv
             if recv.kind == 'str' and f.attr in ('replace', 'rstrip', 'lstrip', 'removesuffix', 'removeprefix') and \
@@ -696,6 +714,14 @@ class Evaluator:
                 r = a.kind == b.kind
             elif isinstance(a.val, tuple) and isinstance(b.val, tuple) and a.val[0] == 'class':
                 r = a.val == b.val
+            elif (a.kind == 'other' and isinstance(a.val, tuple) and a.val[0] == 'name') or \
+                    (b.kind == 'other' and isinstance(b.val, tuple) and b.val[0] == 'name'):
+                # an opaque named object (a sentinel) is identical to itself only
+                r = a.kind == b.kind and a.val == b.val
+            elif a.kind == 'blank' or b.kind == 'blank':
+                r = False if a.kind != b.kind else None
+                if r is None:
+                    raise Unknown('identity of two blanks')
             else:
                 raise Unknown('identity')
             return r if isinstance(op, ast.Is) else not r
@@ -703,7 +729,7 @@ class Evaluator:
             if b.items is None:
                 raise Unknown('membership in an unknown container')
             r = False
-            for x in b.items:
+            for x in (b.items if b.kind != 'dict' else tuple(kv.items[0] for kv in b.items)):
                 if isinstance(a.val, tuple) and a.val[0] == 'class':
                     # type(x) in [float, int]
                     if isinstance(x.val, tuple) and x.val[0] in ('class', 'name'):
